@@ -196,7 +196,7 @@ Qed.
 
 Lemma delay_input_ge m v : is_delay_input m v -> m_base m <= v.
 Proof.
-  unfold is_delay_input, delay_states. rewrite in_map_iff. intros [k [<- _]]. lia.
+  unfold is_delay_input, delay_states. rewrite in_map_iff. intros [k [<- _]]. apply Nat.le_add_r.
 Qed.
 
 Lemma declared_lt m v k : (forall d, In d (m_decls m) -> d_id d < m_base m) -> declared m v k -> v < m_base m.
@@ -235,7 +235,8 @@ Proof.
       * apply N1. exact (declared_unique m v _ _ Hn Hk H).
       * apply N1. exact (declared_unique m v _ _ Hn Hk H).
       * apply N2. exact (declared_unique m v _ _ Hn Hk H).
-      * apply delay_input_ge in H. apply (declared_lt m v k Hlt) in Hk. lia.
+      * apply delay_input_ge in H. apply (declared_lt m v k Hlt) in Hk.
+        exact (Nat.lt_irrefl _ (Nat.lt_le_trans _ _ _ Hk H)).
     + destruct Hb as [-> | [[w [-> _]] | [w [-> _]]]]; discriminate.
 Qed.
 
